@@ -481,6 +481,28 @@ func c14World(t *testing.T, r *simcore.Run) any {
 				fail("nts/authenticate-own-request", "%v", err)
 				return
 			}
+			// a foreign client's request with an extension field of a type unknown here in front of
+			// the cookie: skipped, everything else decodes and authenticates as before
+			if len(ck)%4 == 0 {
+				c08UnknownField = make([]byte, []int{4, 12, 24, 32, 60}[tp.Intn(5, "unklen")])
+				rand.Read(c08UnknownField)
+				raw := c08RawNTSRequest(make([]byte, 48), cookies[0], 8-ncook, key)
+				c08UnknownField = nil
+				var dx nts.Packet
+				if err := nts.DecodePacket(&dx, raw); err != nil {
+					fail("nts/unknown-field", "a request with an unknown extension field does not decode: %v", err)
+					return
+				}
+				if len(dx.Cookies) != 1 || !bytes.Equal(dx.Cookies[0].Cookie, cookies[0]) || len(dx.CookiePlaceholders) != 8-ncook || len(dx.UniqueID.ID) != 32 {
+					fail("nts/unknown-field", "a request with an unknown extension field decodes to %d cookies / %d placeholders", len(dx.Cookies), len(dx.CookiePlaceholders))
+					return
+				}
+				if err := nts.ProcessRequest(raw, key, &dx); err != nil {
+					fail("nts/unknown-field", "a request with an unknown extension field does not authenticate: %v", err)
+					return
+				}
+				r.Probe("unknown-extension-field-skipped")
+			}
 			nresp := 1 + tp.Intn(7, "nresp")
 			if len(ck)%4 != 0 {
 				// responses are only ever built by this project's server from its own cookies, whose
